@@ -74,6 +74,8 @@ def canon(value, depth=0, student_files=('answer.py', 'helper.py')):
     if isinstance(value, type):
         return ('class', value.__name__)
     if callable(value) and hasattr(value, '__name__'):
+        if value.__name__ in ('_input', '_input_tracker'):
+            return ('callable', 'input')       # the input seam of either side (a program may alias it: read = input)
         return ('callable', value.__name__)
     if isinstance(value, BaseException):
         try:
